@@ -1,5 +1,6 @@
 import DM.Drv.Util
 import DM.Model.Encode
+import DM.Model.PlanSide
 namespace DM.Drv
 open DM.Model DM.Model.Enc
 
@@ -29,6 +30,11 @@ def encRunOp (args : List String) : Option String :=
       | .error .listEmpty => some "err:SymbolListEmpty"
       | .error (.panic _) => some "panic"
       | .error .fuel => some "fuel"
+  | ["planok", body, plan] =>
+    -- the decidable side condition of the coupling theorems (`DM/Props/C18Couple.lean`), evaluated on the
+    -- plan the implementation used: no switch out of C40/Text scheduled for the last two characters when
+    -- these are digits, except the switch to ASCII exactly in front of them
+    some (if DM.Model.PlanSide.planOK (unhex body) (parseEPlan plan) then "true" else "false")
   | _ => none
 
 end DM.Drv
